@@ -22,8 +22,10 @@ func init() {
 			"if err := w.Close(); err != nil {\n\t\tw.Abort()\n\t\treturn ksuid.Nil, err\n\t}", "defer w.Close()", "C14-O1", "runtime/exec.Compact"},
 		Mutant{"C14", "c14-sortobjects-unstable", "runtime/sam/op/meta/lister.go", "sortObjects",
 			"sort.SliceStable(", "sort.Slice(", "C14-S1", "sortObjects"},
-		Mutant{"C14", "c14-deleter-drops-missing", "compiler/kernel/filter.go", "DeleteFilter.AsEvaluator",
-			"Name: \"missing\",", "Name: \"is_error\",", "C14-W1", "AsEvaluator"},
+		Mutant{"C14", "c14-deleter-drops-nonbool", "compiler/kernel/filter.go", "deleteSurvivor.Eval",
+			"!(val.Type() == zed.TypeBool && val.Bool())", "!(val.Type() != zed.TypeBool || val.Bool())", "C14-P2", "survivor predicate"},
+		Mutant{"C14", "c14-deleter-other-predicate", "compiler/kernel/filter.go", "DeleteFilter.AsEvaluator",
+			"f.builder.compileExpr(f.pushdown)", "f.builder.compileExpr(&dag.Literal{Kind: \"Literal\", Value: \"false\"})", "C14-W1", "AsEvaluator"},
 		Mutant{"C14", "c14-deleter-inherits-bufferfilter", "compiler/kernel/filter.go", "",
 			"func (f *DeleteFilter) AsBufferFilter() (*expr.BufferFilter, error) {\n\treturn nil, nil\n}", "", "C14-W1", "AsBufferFilter"},
 		// C15
